@@ -200,6 +200,19 @@ Definition client_response (d : bytes) (t : term) : connect_outcome :=
   | ATOutOfFuel => CPending
   end.
 
+(* after the response: Endpoint::connect hands the same stream (with whatever the peer sent after
+   the response HEADERS still unread) to the driver, whose session runner continues on it *)
+Definition client_session_rest (d : bytes) (t : term) : option bytes :=
+  match response_first_frame (fuel_for d) d t with
+  | ATFrame _ r _ => Some r
+  | _ => None
+  end.
+Definition client_established_run (d : bytes) (t : term) : reaction :=
+  match client_session_rest d t with
+  | Some r => connect_run 64 r t
+  | None => RNotConnected
+  end.
+
 (* ---------- worker exit (mod.rs:297-322): what is put on the wire, what is reported ---------- *)
 Inductive derr := DProto (e : ecode) | DAppClosed (code : N) (reason : bytes) | DNotConnected.
 Definition close_code_of (e : derr) : option N :=
